@@ -27,6 +27,7 @@ SIG_L = "_getCirculantMatrix|custom-PSF:transposed-operator"
 SIG_D = "Defocus-PSF|disc-off-centre"
 SIG_D0 = "Defocus-PSF|param-0:IndexError"
 SIG_PG = "Poisson1D.__init__|range-grid-ignores-endpoint"
+SIG_HS = "Heat1D.__init__|field_type-Step+map:AttributeError"
 
 # ------------------------------------------------------------------------------------------------
 # encoders
@@ -240,6 +241,12 @@ def probe_state(force=False):
         from cuqi.testproblem import Poisson1D
         with ScriptedRandom(seed=0):
             _STATE["pgrid_fixed"] = bool(Poisson1D(dim=3, endpoint=2, source=lambda xs: 1 + 0 * xs).model.range_geometry.grid[0] == 1.0)
+            try:
+                from cuqi.testproblem import Heat1D
+                Heat1D(dim=4, field_type="Step", field_params={"n_steps": 2}, map=lambda x: 2 * x + 1)
+                _STATE["heatstep_fixed"] = True
+            except AttributeError:
+                _STATE["heatstep_fixed"] = False
     return _STATE
 
 
@@ -306,6 +313,8 @@ def construct(spec):
                             if sty.get(key) == "view":
                                 big = np.zeros(tuple(2 * d_ for d_ in a.shape)); big[...] = 7
                                 v = big[tuple(slice(None, None, 2) for _ in a.shape)]; v[...] = a; a = v
+                            if sty.get(key) == "flat":
+                                a = a.ravel()
                             if sty.get(key) == "cuqiarray" and a.ndim == 1:
                                 a = cuqi.array.CUQIarray(a, geometry=cuqi.geometry.Continuous1D(len(a)))
                             kw[key] = a
@@ -332,9 +341,9 @@ def construct(spec):
                 elif kind == "abel":
                     tp = TP.Abel1D(**field_kw(cuqi, kw, "KL_map"))
                 elif kind == "poisson":
-                    tp = TP.Poisson1D(**field_kw(cuqi, kw, "map"))
+                    tp = TP.Poisson1D(**field_kw(cuqi, dict(kw, _tpkind="poisson"), "map"))
                 elif kind == "heat":
-                    tp = TP.Heat1D(**field_kw(cuqi, kw, "map"))
+                    tp = TP.Heat1D(**field_kw(cuqi, dict(kw, _tpkind="heat"), "map"))
                 elif kind == "cubic":
                     if "prior" in kw:
                         kw["prior"] = mk_prior(cuqi, kw["prior"], 2)
@@ -356,11 +365,66 @@ def construct(spec):
 
 SOURCES = {"zero": lambda xs: 0 * xs, "one": lambda xs: 1 + 0 * xs, "lin": lambda xs: 2 * xs + 1, "quad": lambda xs: 4 * xs * xs}
 OBSMAPS = {"upper": lambda g: g[np.where(g > 0.45)], "every2": lambda g: g[::2]}
-MAPS = {"exp": (lambda x: np.exp(x), lambda x: np.log(x)), "affine": (lambda x: 2 * x + 1, lambda x: (x - 1) / 2)}
+MAPS = {"exp": (lambda x: np.exp(x), lambda x: np.log(x)), "affine": (lambda x: 2 * x + 1, lambda x: (x - 1) / 2),
+        "sq1": (lambda x: x * x + 1, lambda x: np.sqrt(x - 1))}
+GCLASS = {"cont": ("Continuous1D", 0, "GContinuous1D"), "KL": ("KLExpansion", 1, "GKL"), "KL_Full": ("KLExpansion_Full", 2, "GKLFull"),
+          "Step": ("StepExpansion", 3, "GStep"), "CustomKL": ("CustomKL", 4, "GCustomKL")}
+
+
+def field_grid(tpkind, kw):
+    n, ep = kw["dim"], kw.get("endpoint", 1)
+    if tpkind == "poisson":
+        return np.linspace(0, ep, n, endpoint=True)
+    if tpkind == "heat":
+        return np.linspace(ep / (n + 1), ep, n, endpoint=False)
+    return np.linspace(0, ep, n)
+
+
+def field_params_py(cls, params):
+    """json-able field_params -> constructor keywords (CustomKL needs a covariance function)"""
+    params = dict(params or {})
+    if cls == "CustomKL":
+        ell = params.pop("ell", 1.0)
+        params["cov_func"] = lambda a, b, ell=ell: np.exp(-abs(a - b) / ell)
+    return params
+
+
+def mk_field_geometry(cuqi, cls, grid, params):
+    G = cuqi.geometry
+    ctor = {"cont": G.Continuous1D, "KL": G.KLExpansion, "KL_Full": G.KLExpansion_Full, "Step": G.StepExpansion, "CustomKL": G.CustomKL}[cls]
+    return ctor(grid, **field_params_py(cls, params))
+
+
+FIELD_OBJS = {}
 
 
 def field_kw(cuqi, kw, mapname):
     kw = dict(kw)
+    FIELD_OBJS.clear()
+    if "field" in kw:          # {"type": None | name | "inst:<class>", "params": {...}, "map": None | name, "imap": bool}
+        fd = kw.pop("field")
+        tpkind = {"KL_map": "abel"}.get(mapname, None) or kw.pop("_tpkind")
+        ft = fd.get("type")
+        if ft is not None and ft.startswith("inst:"):
+            inst = mk_field_geometry(cuqi, ft[5:], field_grid(tpkind, kw), fd.get("params"))
+            kw["field_type"] = inst
+            FIELD_OBJS["instance"] = inst
+            if fd.get("params_also"):
+                kw["field_params"] = {}
+        elif ft is not None:
+            kw["field_type"] = ft
+            if fd.get("params") is not None:
+                kw["field_params"] = field_params_py(ft, fd["params"])
+        if fd.get("map"):
+            m_, im_ = MAPS[fd["map"]]
+            m_ = (lambda f: (lambda x: f(x)))(m_)          # fresh callables: identity of the objects handed on is checked
+            im_ = (lambda f: (lambda x: f(x)))(im_)
+            kw[mapname] = m_
+            FIELD_OBJS["map"] = m_
+            if fd.get("imap", True):
+                kw["KL_imap" if mapname == "KL_map" else "imap"] = im_
+                FIELD_OBJS["imap"] = im_
+    kw.pop("_tpkind", None)
     if "source" in kw:
         kw["source"] = SOURCES[kw["source"]]
     if "observation_grid_map" in kw:
@@ -476,6 +540,8 @@ def common_cases(spec, tp, d, cell, stated, info_expected):
         mu, ps2 = prior_of(spec, len(x))
         v = float(np.asarray(P.logd(np.array(x))).ravel()[0])
         mx = fl(m.forward(np.array(x)))
+        if spec.get("_mx_ref") is not None:      # forward map computed independently (geometry -> map -> documented solution map)
+            mx = [float(v) for v in spec["_mx_ref"]]
         data = [stated[2]] if rule == "given" else fl(dd)      # WangCubic: the SUPPLIED observation, not what is handed back
         s2v = [float(a) for a in (s2 if np.ndim(s2) else [s2] * len(data))]
         if min(s2v) > 1e-12 and math.isfinite(v):
@@ -975,6 +1041,131 @@ def heat_cases(spec, cell):
 
 
 # ------------------------------------------------------------------------------------------------
+# field_type x map x field_params lattice of Poisson1D / Heat1D / Abel1D
+# ------------------------------------------------------------------------------------------------
+def heat_ref(N, ep, T, u0):
+    dx = ep / (N + 1)
+    steps = int(T / (5 / 11 * dx ** 2))
+    dt = T / steps if steps else 0.0
+    Dxx = (np.diag(-2 * np.ones(N)) + np.diag(np.ones(N - 1), -1) + np.diag(np.ones(N - 1), 1)) / dx ** 2
+    u = np.array(u0, dtype=float)
+    for _ in range(steps):
+        u = u + dt * (Dxx @ u)
+    return u
+
+
+def poisson_ref(n, ep, kappa, srcname):
+    N = n - 1
+    dx = ep / N
+    grid = np.array([dx + i * (ep - dx) / N for i in range(N)])
+    Dx = np.zeros((N + 1, N)); Dx[0, 0] = 1
+    for r in range(1, N + 1):
+        Dx[r, r - 1] = -1
+        if r < N:
+            Dx[r, r] = 1
+    Dx /= dx
+    return np.linalg.solve(Dx.T @ np.diag(kappa) @ Dx, SOURCES[srcname](grid))
+
+
+def abel_ref(n, ep):
+    h = ep / n
+    return np.array([[(h / math.sqrt((i - j + 0.5) * h)) if j <= i else 0.0 for j in range(n)] for i in range(n)])
+
+
+def field_base_key(fd):
+    ft = fd.get("type")
+    return "cont" if ft is None else (ft[5:] if ft.startswith("inst:") else ft)
+
+
+def field_forward_ref(spec, p):
+    """function values map(par2fun(p)) from an independently built geometry, and the documented solution map applied to them"""
+    import cuqi
+    tpk, kw = spec["tp"], spec["kw"]
+    fd = kw["field"]
+    g = mk_field_geometry(cuqi, field_base_key(fd), field_grid(tpk, kw), fd.get("params"))
+    f = np.asarray(g.par2fun(np.array(p, dtype=float)), dtype=float)
+    if fd.get("map"):
+        f = MAPS[fd["map"]][0](f)
+    n, ep = kw["dim"], kw.get("endpoint", 1)
+    if tpk == "heat":
+        return f, heat_ref(n, ep, kw.get("max_time", 0.2), f), g.par_dim
+    if tpk == "poisson":
+        if np.min(f) < 0.05:
+            return f, None, g.par_dim          # conductivity not safely positive: the solve is not a well-posed reference
+        return f, poisson_ref(n, ep, f, kw.get("source", "one")), g.par_dim
+    return f, abel_ref(n, ep) @ f, g.par_dim
+
+
+def field_cases(spec, cell):
+    import cuqi
+    tpk, kw = spec["tp"], spec["kw"]
+    fd = kw["field"]
+    p = [float(v) for v in spec["x"]]
+    f_ref, y_ref, pdim = field_forward_ref(spec, p)
+    base_spec = dict(spec)
+    if y_ref is None:
+        base_spec.pop("x", None)
+    else:
+        base_spec["_mx_ref"] = [float(v) for v in y_ref]
+    tp, d, err = construct(spec)
+    if tp is None:
+        # every combination of the lattice is documented: a refusal is a defect of the constructor
+        sig = SIG_HS if (tpk == "heat" and fd.get("type") == "Step" and fd.get("map") and "n_steps" in err) else "%s|field_type-map-refused" % tpk
+        return [Case(expr="false || %s" % cbool(sig == SIG_HS and not probe_state().get("heatstep_fixed", False)), meta=spec_clean(dict(spec, obs="constructed")),
+                     cell=cell + "/refused", kind="DECISION", trivial=True),
+                verdict_case(spec_clean(dict(spec, obs="constructed")), cell,
+                             "%s(field_type=%r, map given%s) cannot be constructed: %s" % ({"heat": "Heat1D", "poisson": "Poisson1D", "abel": "Abel1D"}[tpk], fd.get("type"),
+                                                                                      "" if "exactSolution" in kw else ", default exact solution", err), sig)]
+    cases = {"heat": heat_cases, "poisson": poisson_cases, "abel": abel_cases}[tpk](base_spec, cell)
+    tp, d, err = construct(spec)
+    objs = dict(FIELD_OBJS)
+    g = tp.model.domain_geometry
+    mapped = type(g).__name__ == "MappedGeometry"
+    base = g.geometry if mapped else g
+    cname, ccode, ccoq = GCLASS[field_base_key(fd)]
+    obs_code = {v[0]: v[1] for v in GCLASS.values()}.get(type(base).__name__, 99)
+    same_obj = ("instance" not in objs) or (base is objs["instance"])
+    map_ok = (not fd.get("map")) or (mapped and g.map is objs.get("map"))
+    imap_ok = (not fd.get("map")) or (mapped and ((g.imap is objs["imap"]) if "imap" in objs else (g.imap is None)))
+    ft = fd.get("type")
+    fcoq = "FNone" if ft is None else ("(FInstance %s)" % ccoq if ft.startswith("inst:") else "(FName %s)" % ccoq)
+    cases.append(Case(expr="check_domain_geometry %s %s %s %s %s %s %s" % (fcoq, cbool(bool(fd.get("map"))), cbool(mapped), cnat(obs_code), cbool(same_obj), cbool(map_ok), cbool(imap_ok)),
+                      meta=dict(spec, obs="domain-geometry"), cell=cell + "/domain-geometry", kind="DECISION"))
+    want = "MappedGeometry(%s)" % cname if fd.get("map") else cname
+    got = ("MappedGeometry(%s)" % type(base).__name__) if mapped else type(base).__name__
+    if got != want or not (same_obj and map_ok and imap_ok) or tp.model.domain_dim != pdim:
+        cases.append(verdict_case(dict(spec, obs="domain-geometry"), cell + "/domain-geometry",
+                                  "%s(field_type=%s, map=%s): model.domain_geometry is %s (par_dim %d), documented: %s (par_dim %d)%s" % (
+                                      type(tp).__name__, ft, fd.get("map"), got, tp.model.domain_dim, want, pdim,
+                                      "" if same_obj and map_ok and imap_ok else "; the geometry/map/imap objects handed on are not the ones supplied"),
+                                  "%s|field_type-map-dispatch" % tpk))
+    # forward(p) = documented solution map applied to map(par2fun(p))
+    if tp.model.domain_dim == len(p):
+        with warnings.catch_warnings():
+            warnings.simplefilter("ignore")
+            fwd = fl(tp.model.forward(np.array(p)))
+        n, ep = kw["dim"], kw.get("endpoint", 1)
+        fexpr = None
+        if tpk == "heat":
+            nsteps = len(tp.model.pde.time_steps) - 1
+            fexpr = "check_heat tol9 %s %s %s %s %s %s" % (cnat(n), cqc(Fraction(ep)), cqc(Fraction(kw.get("max_time", 0.2)).limit_denominator(1000)), cnat(nsteps), cqcvec(fl(f_ref)), cqcvec(fwd))
+        elif tpk == "poisson" and y_ref is not None:
+            srcn = {"one": "SrcOne", "lin": "SrcLin", "quad": "SrcQuad", "zero": "SrcZero"}[kw.get("source", "one")]
+            fexpr = "check_poisson_full tol6 %s %s %s %s %s" % (srcn, cnat(n - 1), cqc(Fraction(ep)), cqcvec(fl(f_ref)), cqcvec(fwd))
+        elif tpk == "abel":
+            fexpr = "check_abel_forward tol9 %s %s %s %s %s" % (cnat(n), cqc(Fraction(ep)), cqcmat(fl2(dense(tp.model._matrix) if getattr(tp.model, "_matrix", None) is not None else dense(tp.model.get_matrix()))), cqcvec(fl(f_ref)), cqcvec(fwd))
+        if fexpr:
+            cases.append(Case(expr=fexpr, meta=dict(spec, obs="forward"), cell=cell + "/forward", kind="EXACT"))
+        if y_ref is not None and not rclose(fwd, y_ref, 1e-7):
+            cases.append(verdict_case(dict(spec, obs="forward"), cell + "/forward",
+                                      "%s(field_type=%s, map=%s).model.forward(%s) = %s but the documented solution map applied to map(par2fun(p)) = %s gives %s" % (
+                                          type(tp).__name__, ft, fd.get("map"), p, fwd, fl(f_ref), fl(y_ref)), "%s|forward-through-geometry" % tpk))
+    for c in cases:
+        c.meta = spec_clean(c.meta); c.key = ""; c.__post_init__()
+    return cases
+
+
+# ------------------------------------------------------------------------------------------------
 # WangCubic
 # ------------------------------------------------------------------------------------------------
 def cubic_cases(spec, cell):
@@ -1236,6 +1427,15 @@ def specs(ctx):
         k += 1
         kw = dict({"dim": 5, "BC": rng.choice(["zero", "periodic", "nearest", "reflect", "mirror"]), "noise_std": STD[k % 4]}, **kwf)
         out.append(({"tp": "deconv1d", "kw": kw, "style": sty, "z": zvec(rng, 5, k), "x": dyvec(rng, 5)}, "Deconvolution1D/falsy/" + nm, "deconv1d"))
+    # options that must survive every branch of a type dispatch: prior x (legacy | array PSF | named PSF) x noise_type; array PSF with (ignored) PSF_param/PSF_size
+    for nm, kwf, h in [("legacy+prior", {"use_legacy": True, "PSF": [1, 3, 2, 5, 1, 2], "prior": {"mean": dyvec(rng, 6), "cov": 0.25}}, "legacy"),
+                       ("legacy-builtin+prior+scaled", {"use_legacy": True, "PSF": "gauss", "PSF_param": 3, "prior": {"mean": dyvec(rng, 6), "cov": 4.0}, "noise_type": "scaledGaussian"}, "legacy"),
+                       ("array-PSF+prior+scaled", {"PSF": [1, 2, 3], "BC": "zero", "prior": {"mean": dyvec(rng, 6), "cov": 0.25}, "noise_type": "scaledgaussian"}, "deconv1d"),
+                       ("named-PSF+prior", {"PSF": "moffat", "PSF_size": 3, "PSF_param": 1.5, "BC": "mirror", "prior": {"mean": dyvec(rng, 6), "cov": 4.0}}, "deconv1d"),
+                       ("array-PSF+PSF_param+PSF_size", {"PSF": [3, 1, 2], "PSF_param": 3, "PSF_size": 5, "BC": "nearest"}, "deconv1d")]:
+        k += 1
+        kw = dict({"dim": 6, "phantom": [rng.randint(1, 5) for _ in range(6)], "noise_std": STD[k % 4]}, **kwf)
+        out.append(({"tp": "deconv1d", "kw": kw, "z": zvec(rng, 6, k), "x": dyvec(rng, 6)}, "Deconvolution1D/dispatch/" + nm, h))
     out.append(({"tp": "deconv1d", "kw": {"dim": 6}, "z": zvec(rng, 6, 2), "x": dyvec(rng, 6)}, "Deconvolution1D/all-defaults", "deconv1d"))
     out.append(({"tp": "deconv1d", "kw": {"dim": 6, "use_legacy": True}, "z": zvec(rng, 6, 2), "x": dyvec(rng, 6)}, "Deconvolution1D/legacy/all-defaults", "legacy"))
     for kind in ["gauss", "sinc", "vonMises"]:
@@ -1338,6 +1538,14 @@ def specs(ctx):
             kw.update({"BC": rng.choice(["zero", "periodic", "nearest", "neumann", "mirror"]), "noise_std": 0.5})
         out.append(({"tp": "deconv2d", "kw": kw, "img": [ivec(rng, 3) for _ in range(3)], "z": zvec(rng, 9, k), "x": dyvec(rng, 9)},
                     "Deconvolution2D/falsy/" + nm if kwf else "Deconvolution2D/all-defaults", "deconv2d"))
+    for nm, kwf, sty in [("array-PSF+prior+scaled", {"PSF": [[1, 2, 1], [2, 3, 1], [1, 1, 2]], "prior": {"mean": dyvec(rng, 9), "cov": 0.25}, "noise_type": "scaledGaussian"}, {}),
+                         ("named-PSF+prior", {"PSF": "moffat", "PSF_size": 3, "PSF_param": 1.5, "prior": {"mean": dyvec(rng, 9), "cov": 4.0}}, {}),
+                         ("array-PSF+PSF_param+PSF_size", {"PSF": [[1, 2], [3, 4]], "PSF_param": 1.0, "PSF_size": 5}, {}),
+                         ("phantom-as-vector", {"PSF": [[1, 2, 1], [2, 3, 1], [1, 1, 2]]}, {"phantom": "flat"})]:
+        k += 1
+        kw = dict({"dim": 3, "BC": rng.choice(["zero", "periodic", "nearest", "neumann", "mirror"]), "phantom": [[rng.randint(1, 5) for _ in range(3)] for _ in range(3)], "noise_std": 0.5}, **kwf)
+        out.append(({"tp": "deconv2d", "kw": kw, "style": sty, "img": [ivec(rng, 3) for _ in range(3)], "z": zvec(rng, 9, k), "x": dyvec(rng, 9)},
+                    "Deconvolution2D/dispatch/" + nm, "deconv2d"))
     out.append(({"tp": "deconv2d", "kw": {"dim": 3, "PSF": [[1, 2], [3, 4]], "phantom": [[1, 2, 3], [0, 1, 0], [2, 0, 1]], "noise_std": 0}, "z": [1.0] + [0.0] * 8},
                 "Deconvolution2D/falsy/noise_std-0", "zero-noise"))
     for kw, refused in [({"dim": 3, "BC": "reflect"}, True), ({"dim": 3, "PSF": 3}, True), ({"dim": 3, "noise_type": "poisson", "PSF": [[1]], "phantom": [[1, 2, 3]] * 3}, True),
@@ -1432,6 +1640,40 @@ def specs(ctx):
         out.append(({"tp": "heat", "kw": {"dim": n, "endpoint": 2.0 ** e_, "max_time": 0.2 * 4.0 ** e_, "SNR": 200,
                                           "exactSolution": [rng.randint(1, 8) * 2.0 ** rng.choice([0, e_, -e_]) for _ in range(n)]},
                      "scale": True, "z": zvec(rng, n, k), "x": dyvec(rng, n)}, "Heat1D/scale/2^%d" % e_, "heat"))
+    # ---------------- field_type x map x field_params for the three problems with a field ----------------
+    FT = [None, "KL", "KL_Full", "Step", "CustomKL", "inst:cont", "inst:KL", "inst:KL_Full", "inst:Step", "inst:CustomKL"]
+    for tpk in ["poisson", "heat", "abel"]:
+        for ft in FT:
+            if tpk == "abel" and ft == "KL_Full":
+                continue                      # not among Abel1D's documented names (the instance is)
+            for mp in [None, True, False]:    # no map | map with imap | map without imap
+                k += 1
+                n = 5
+                base = "cont" if ft is None else (ft[5:] if ft.startswith("inst:") else ft)
+                params = {"cont": None, "KL": {"num_modes": 3} if k % 2 else None, "KL_Full": {"std": 2.0, "cor_len": 0.5} if k % 2 else None,
+                          "Step": {"n_steps": 2} if k % 2 else None, "CustomKL": {"mean": 0, "std": 1.0, "trunc_term": 3, "ell": 1.0}}[base]
+                pdim = {"cont": n, "KL": 3 if params else n, "KL_Full": n, "Step": 2 if params else 3, "CustomKL": 3}[base]
+                fd = {"type": ft, "params": params}
+                if mp is not None:
+                    fd["map"] = ("affine" if base in ("cont", "Step") else "sq1") if tpk == "poisson" else rng.choice(["affine", "sq1"])
+                    fd["imap"] = mp
+                kw = {"dim": n, "SNR": rng.choice([200, 40]), "field": fd}
+                if tpk == "poisson":
+                    kw["source"] = rng.choice(["one", "lin", "quad"])
+                    kw["endpoint"] = rng.choice([1, 2])
+                    xv = [rng.randint(4, 12) / 4 for _ in range(pdim)] if base in ("cont", "Step") else dyvec(rng, pdim, -6, 6)
+                    nobs = n - 1
+                    if k % 4 == 0:
+                        kw["exactSolution"] = [rng.randint(4, 12) / 4 for _ in range(n)]
+                else:
+                    kw["endpoint"] = rng.choice([1, 2]) if tpk == "abel" else 1
+                    xv = dyvec(rng, pdim)
+                    nobs = n
+                    if tpk == "heat" and k % 4 == 0:
+                        kw["exactSolution"] = dyvec(rng, n, 0, 8)
+                out.append(({"tp": tpk, "kw": kw, "z": zvec(rng, nobs, k), "x": xv},
+                            "%s/field/%s/%s" % ({"poisson": "Poisson1D", "heat": "Heat1D", "abel": "Abel1D"}[tpk], ft or "None",
+                                                "nomap" if mp is None else ("map+imap" if mp else "map-noimap")), "field"))
     # ---------------- WangCubic ----------------
     for dk in ["int", "float", "np", "npint", "bool", "array"]:
         for ns in [None, 0.5]:
@@ -1480,6 +1722,8 @@ def handle(spec, cell, h):
         return heat_cases(spec, cell)
     if h == "cubic":
         return cubic_cases(spec, cell)
+    if h == "field":
+        return field_cases(spec, cell)
     if h.startswith("refusal:"):
         return refusal_case(spec, cell, h.endswith("1"))
     if h == "zero-noise":
@@ -1544,6 +1788,8 @@ def _rerun(meta):
         return phantom_cases(m["kind"], m["dim"], m["param"])
     if h == "psf" or m.get("tp") in ("psf1d", "psf2d"):
         return psf_cases(m["kind"], m["n"], m["param"], two_d=(m["tp"] == "psf2d"))
+    if "field" in m.get("kw", {}):
+        h = "field"
     if h is None:
         h = {"deconv1d": "legacy" if m.get("kw", {}).get("use_legacy") else "deconv1d", "deconv2d": "deconv2d", "abel": "abel",
              "poisson": "poisson", "heat": "heat", "cubic": "cubic"}[m["tp"]]
@@ -1571,6 +1817,8 @@ WITNESSES = {
     SIG_L: {"tp": "deconv1d", "kw": {"dim": 6, "PSF": [1, 2, 3, 4, 5, 6], "use_legacy": True, "phantom": [1, -2, 0, 3, 1, 1], "noise_std": 0.5},
             "z": [1, 0, -0.5, 0.25, 2, 0], "x": [0.5, 1, -1, 0, 0.25, 1], "handler": "legacy"},
     SIG_D: {"tp": "psf1d", "kind": "defocus", "n": 5, "param": 1, "handler": "psf"},
+    SIG_HS: {"tp": "heat", "kw": {"dim": 5, "SNR": 200, "endpoint": 1, "field": {"type": "Step", "params": {"n_steps": 2}, "map": "affine", "imap": True}},
+             "z": [0.0] * 5, "x": [0.5, 1.0], "handler": "field"},
     SIG_PG: {"tp": "poisson", "kw": {"dim": 3, "endpoint": 2, "SNR": 200, "source": "one"}, "z": [0.0, 1.0], "x": [2.0, 1.75, 0.5], "handler": "poisson"},
     SIG_D0: {"tp": "deconv1d", "kw": {"dim": 6, "PSF": "defocus", "PSF_size": 3, "PSF_param": 0, "phantom": [1, 2, 3, 4, 5, 6], "noise_std": 0.5},
              "z": [0.0] * 6, "handler": "deconv1d"},
